@@ -6,6 +6,7 @@
 (*    ext_recompose_coeffs : value -> the coefficient handles it was built *)
 (*                           from (or was decomposed into)                 *)
 (*    ext_select_sources   : value -> (b, t, s) when it is select(b, t, s) *)
+(* and connect, which merges the entries of the two handles it ties.       *)
 (* One action per builder call.  decompose(x) is transcribed with its      *)
 (* three paths: (a) x has coefficient provenance: return it, no new gates; *)
 (* (b) x = select(b, t, s) and t or s has provenance: decompose            *)
@@ -24,7 +25,7 @@
 (***************************************************************************)
 EXTENDS Integers, Sequences, FiniteSets, TLC, Json
 
-CONSTANTS MaxCalls, Fallback
+CONSTANTS MaxCalls, Fallback, AllowConnect
 
 \* prelude handles: 1 = flag (base, boolean), 2..3 = extension public inputs, 4..7 = base public inputs
 NPre == 7
@@ -36,8 +37,9 @@ VARIABLES nodes,   \* sequence of records [k, a] after the prelude; handle h > N
           prov,    \* handle -> <<c0, c1>> or <<>>
           sel,     \* handle -> <<b, t, s>> or <<>>
           outs,    \* results of decompose calls: <<x, <<c0, c1>>>>
-          calls    \* history (for the replay)
-vars == <<nodes, prov, sel, outs, calls>>
+          calls,   \* history (for the replay)
+          eqs      \* connects the program made: set of <<a, b>>
+vars == <<nodes, prov, sel, outs, calls, eqs>>
 \* handles the caller holds: the inputs and what the calls returned (the hint coefficients' recomposition of path (c) is
 \* internal to the builder)
 Vis == (1..NPre) \cup UNION { {calls[r].ret[q] : q \in 1..Len(calls[r].ret)} : r \in 1..Len(calls) }
@@ -49,7 +51,7 @@ IsExt(h) == Kind(h) \in {"ext", "rec", "sel"}
 IsBase(h) == Kind(h) \in {"base", "coef", "selc"}
 Get(m, h) == IF h \in DOMAIN m THEN m[h] ELSE <<>>
 
-Init == nodes = <<>> /\ prov = <<>> /\ sel = <<>> /\ outs = <<>> /\ calls = <<>>
+Init == nodes = <<>> /\ prov = <<>> /\ sel = <<>> /\ outs = <<>> /\ calls = <<>> /\ eqs = {}
 
 NewH(n) == NPre + Len(nodes) + n
 Put(m, h, v) == [x \in (DOMAIN m) \cup {h} |-> IF x = h THEN v ELSE m[x]]
@@ -60,7 +62,7 @@ Recompose(i, j) ==
     /\ nodes' = Append(nodes, [k |-> "rec", a |-> <<i, j>>])
     /\ prov' = Put(prov, NewH(1), <<i, j>>)
     /\ calls' = Append(calls, [op |-> "recompose", args |-> <<i, j>>, ret |-> <<NewH(1)>>])
-    /\ UNCHANGED <<sel, outs>>
+    /\ UNCHANGED <<sel, outs, eqs>>
 
 \* operands are not themselves select results (one level of the coefficient-wise path)
 Select(t, s) ==
@@ -68,7 +70,7 @@ Select(t, s) ==
     /\ nodes' = Append(nodes, [k |-> "sel", a |-> <<Flag, t, s>>])
     /\ sel' = Put(sel, NewH(1), <<Flag, t, s>>)
     /\ calls' = Append(calls, [op |-> "select", args |-> <<t, s>>, ret |-> <<NewH(1)>>])
-    /\ UNCHANGED <<prov, outs>>
+    /\ UNCHANGED <<prov, outs, eqs>>
 
 \* path (c) for value x, with the new handles starting at offset n: two hint coefficients, their recomposition,
 \* connect(x, recomposition) -> x and the recomposition share the provenance
@@ -83,7 +85,7 @@ Decompose(x) ==
             \* (a)
             /\ outs' = Append(outs, <<x, px>>)
             /\ calls' = Append(calls, [op |-> "decompose", args |-> <<x>>, ret |-> px])
-            /\ UNCHANGED <<nodes, prov, sel>>
+            /\ UNCHANGED <<nodes, prov, sel, eqs>>
        ELSE IF sx # <<>> /\ (Get(prov, sx[2]) # <<>> \/ Get(prov, sx[3]) # <<>>) THEN
             \* (b) exactly one operand may lack provenance; it is decomposed by path (c) (it is a public input here)
             LET t == sx[2]
@@ -106,7 +108,7 @@ Decompose(x) ==
                /\ prov' = Put(p1, x, res)
                /\ outs' = Append(outs, <<x, res>>)
                /\ calls' = Append(calls, [op |-> "decompose", args |-> <<x>>, ret |-> res])
-               /\ UNCHANGED sel
+               /\ UNCHANGED <<sel, eqs>>
        ELSE
             \* (c)
             LET fc == <<NewH(1), NewH(2)>> IN
@@ -114,12 +116,32 @@ Decompose(x) ==
             /\ prov' = Put(Put(prov, x, fc), NewH(3), fc)
             /\ outs' = Append(outs, <<x, fc>>)
             /\ calls' = Append(calls, [op |-> "decompose", args |-> <<x>>, ret |-> fc])
-            /\ UNCHANGED sel
+            /\ UNCHANGED <<sel, eqs>>
+
+\* connect(a, b): a == b is enforced, and the provenance of the two handles is merged (merge_provenance): when both carry
+\* provenance the first one's survives (a debug build asserts they are equal), when one does both get it.
+\* Replayed shapes: an extension input tied to a computed value that does not depend on it, or two recompositions of inputs.
+RECURSIVE DepsOn(_, _)
+DepsOn(h, a) == IF h = a THEN TRUE ELSE IF h <= NPre THEN FALSE
+                ELSE \E q \in 1..Len(Args(h)) : Args(h)[q] # 0 /\ ~(Kind(h) = "coef" /\ q = 2) /\ DepsOn(Args(h)[q], a)
+Merge(m, a, b) == LET va == Get(m, a)  vb == Get(m, b)
+                      v == IF va # <<>> THEN va ELSE vb
+                  IN IF v = <<>> THEN m ELSE Put(Put(m, a, v), b, v)
+Connect(a, b) ==
+    /\ IsExt(a) /\ IsExt(b) /\ a # b
+    /\ \/ (a \in ExtPub /\ b \notin ExtPub /\ ~DepsOn(b, a) /\ \A e \in eqs : e[1] # a /\ e[2] # a)
+       \/ (Kind(a) = "rec" /\ Kind(b) = "rec" /\ a < b /\ Args(a) = <<4, 5>> /\ Args(b) = <<6, 7>> /\ eqs = {})
+    /\ prov' = Merge(prov, a, b)
+    /\ sel' = Merge(sel, a, b)
+    /\ eqs' = eqs \cup {<<a, b>>}
+    /\ calls' = Append(calls, [op |-> "connect", args |-> <<a, b>>, ret |-> <<>>])
+    /\ UNCHANGED <<nodes, outs>>
 
 Next == /\ Len(calls) < MaxCalls
         /\ \/ \E i, j \in Vis : Recompose(i, j)
            \/ \E t, s \in Vis : Select(t, s)
            \/ \E x \in Vis : Decompose(x)
+           \/ (AllowConnect /\ \E a, b \in Vis : Connect(a, b))
 Spec == Init /\ [][Next]_vars
 
 \* ------------------------------------------------------------------ denotation
@@ -133,14 +155,15 @@ Den(h, env) ==
       [] Kind(h) \in {"sel", "selc"} -> IF Den(Args(h)[1], env)[1] = 1 THEN Den(Args(h)[2], env) ELSE Den(Args(h)[3], env)
       [] Kind(h) = "coef" -> <<Den(Args(h)[1], env)[Args(h)[2] + 1], 0>>
 \* the hint coefficients of path (c) are tied to x by the recomposition + connect the path emits: they ARE x's coefficients
+Sat(env) == \A e \in eqs : Den(e[1], env) = Den(e[2], env)
 CoeffsCorrect ==
-    \A r \in 1..Len(outs) : \A env \in Envs :
+    \A r \in 1..Len(outs) : \A env \in { e \in Envs : Sat(e) } :
         LET x == outs[r][1]
             cs == outs[r][2]
         IN \A i \in 1..2 : Den(cs[i], env) = <<Den(x, env)[i], 0>>
 \* a value with provenance is the recomposition of its provenance
 ProvenanceSound ==
-    \A h \in DOMAIN prov : \A env \in Envs : Den(h, env) = <<Den(prov[h][1], env)[1], Den(prov[h][2], env)[1]>>
+    \A h \in DOMAIN prov : \A env \in { e \in Envs : Sat(e) } : Den(h, env) = <<Den(prov[h][1], env)[1], Den(prov[h][2], env)[1]>>
 
 \* ------------------------------------------------------------------ replay records: every maximal call sequence
 Interesting == \E r \in 1..Len(calls) : calls[r].op = "decompose"
